@@ -408,7 +408,7 @@ def run(tier, seed):
     ok, info = prep(PROP)
     ob, dis = proof_gate(rep, PROP, ok, info)
     rng = random.Random(seed)
-    n = 1200 if tier == "quick" else 40000
+    n = 12000 if tier == "quick" else 60000
     hists = []
     cpath = os.path.join(VERIF, "corpus", "C08.json")
     if os.path.exists(cpath):
